@@ -482,8 +482,7 @@ class System:
         pre_fft = copy.deepcopy(s.fft_settings)
         before = snap_recordings(h.recs)
         ids_before = [id(r) for r in h.recs]
-        res = run_process(h.recs, s)
-        ctx.count("transitions")
+        res = run_process(h.recs, s)        # (the explorer counts this transition)
         after = snap_recordings(h.recs)
         ids_after = [id(r) for r in h.recs]
         n_after = s.fft_settings.get("n") if isinstance(s.fft_settings, dict) else None
@@ -631,10 +630,11 @@ def _selftest(ctx, root):
     ok = parts == {"samples", "meta"}
     recs = make_recordings(root["nrec"])
     res = run_process(recs, make_settings("fd:geometric_mean", 0.0, {"n": None}))
-    v0 = view(res)
-    res.meta["window_type_and_width"][1] = 0.9
-    res.valid_window_boolean_mask[0] = False
-    ok = ok and view_diff(v0, view(res)) == ["masks", "meta"]
+    if not isinstance(res, Raised):
+        v0 = view(res)
+        res.meta["window_type_and_width"] = ["tukey", 0.9]
+        res.valid_window_boolean_mask[0] = False
+        ok = ok and view_diff(v0, view(res)) == ["masks", "meta"]
     if not ok:
         ctx.violation("C09:harness:selftest", root, observed=sorted(parts),
                       explanation="the snapshot comparison did not see a deliberate in-place edit")
